@@ -140,7 +140,7 @@ class Program:
             '#[allow(unused_imports)] use strum::{IntoEnumIterator, EnumCount, VariantNames, VariantArray, EnumMessage, EnumProperty, IntoDiscriminant};',
             '#[allow(unused_imports)] use core::str::FromStr;',
             '#[allow(unused_imports)] use core::convert::TryFrom;',
-            '#[allow(unused_imports)] use crate::{Tag, Cap, PErr, perr, PERR_CALLS, dw_u8, dw_i32, dw_tag};',
+            '#[allow(unused_imports)] use crate::{Tag, Cap, PErr, perr, perr_calls, dw_u8, dw_i32, dw_tag};',
             self.aux_rust, (self.inner.rust_source() if self.inner else ''), self.rust_source(), self.extra_rust, self.kani_rust, ''])
 
     def enabled(self):
